@@ -295,6 +295,14 @@ def run_cases(mod, ctx: Ctx, shard: int, nshards: int,
                     "watchdog: gen %s stopped at case %d of %d" % (name, idx, n))
                 break
             run_one(mod, ctx, name, idx)
+            fired = sum(1 for e in ctx.harness_errors if e.startswith("watchdog: gen %s case" % name))
+            if fired >= 3:
+                # the code under test does not terminate on this workload: stop
+                # the generator instead of waiting the watchdog out case by case
+                ctx.harness_errors.append(
+                    "watchdog: gen %s abandoned at case %d of %d after %d cases did not "
+                    "terminate" % (name, idx, n, fired))
+                break
 
 
 class CaseTimeout(BaseException):
@@ -315,7 +323,7 @@ def run_one(mod, ctx: Ctx, name: str, idx: int) -> None:
     g = mod.GENS[name]
     ctx.gen, ctx.case = name, idx
     rng = case_rng(ctx.seed, name, idx)
-    limit = float(os.environ.get("VF_CASE_TIMEOUT", "600"))
+    limit = float(os.environ.get("VF_CASE_TIMEOUT", "120"))
     old = None
     try:
         old = signal.signal(signal.SIGALRM, _alarm)
